@@ -265,6 +265,8 @@ int tr_recv_sim(const void *sock, void *buf, const size_t len, const time_t time
 			if (s.pos == s.data.size())
 				p.inq.pop_front();
 			p.consumed += n;
+			if (W.reload_active >= 0 && W.wins[(size_t)W.reload_active].si == p.si)
+				sim_wake(SIM_W_USER, &W.reader_cv);
 			W.ctx.count("bytes_delivered", n);
 			sim_log(EV_IO, (3u << 8) | (unsigned)p.si, n);
 			return (int)n;
@@ -1154,7 +1156,36 @@ extern "C" int __wrap_rtr_sync(struct rtr_socket *s)
 	p.sync_enter_consumed = p.consumed;
 	p.sync_faults_before = p.cur_x >= 0 ? p.xs[(size_t)p.cur_x].faults_fired : 0;
 	p.cb_add = p.cb_del = 0;
+	int win = -1;
+	if (W->c06 && p.cur_x >= 0 && p.xs[(size_t)p.cur_x].qtype == PDU_RESET_QUERY && p.xs[(size_t)p.cur_x].sync_calls == 0 &&
+	    (!W->model_pfx[(size_t)si].empty() || !W->model_spki[(size_t)si].empty())) {
+		Win6 wn;
+		wn.si = si;
+		wn.start = ++W->stamp;
+		wn.end = 0;
+		wn.oldp = W->model_pfx[(size_t)si];
+		wn.olds = W->model_spki[(size_t)si];
+		wn.newp = p.data;
+		if (W->belief[(size_t)si].version >= 1)
+			wn.news = p.keys;
+		for (int o = 0; o < W->n; o++)
+			if (o != si) {
+				wn.otherp.insert(W->model_pfx[(size_t)o].begin(), W->model_pfx[(size_t)o].end());
+				wn.others.insert(W->model_spki[(size_t)o].begin(), W->model_spki[(size_t)o].end());
+			}
+		W->wins.push_back(wn);
+		win = (int)W->wins.size() - 1;
+		W->reload_active = win;
+		W->ctx.count("probe_reload_windows");
+	}
 	int rc = __real_rtr_sync(s);
+	if (win >= 0) {
+		W->wins[(size_t)win].end = ++W->stamp;
+		W->wins[(size_t)win].done = true;
+		W->wins[(size_t)win].success = rc == RTR_SUCCESS;
+		W->reload_active = -1;
+		sim_wake(SIM_W_USER, &W->reader_cv); // a few reads after the reload has ended
+	}
 	sync_exit(*W, si, rc);
 	return rc;
 }
@@ -1222,6 +1253,149 @@ void final_checks_after_stop(World &W)
 		if (W.mirror_spki != alls)
 			W.ctx.viol("C10", "mirror-diverged", "C10:mirror:after-stop", "after rtr_mgr_stop the router-key callback log holds %zu records, the table %zu",
 				   W.mirror_spki.size(), alls.size());
+	}
+}
+
+// ---- C06: reader tasks and the old-or-new oracle
+struct ReaderArg {
+	int id;
+	uint64_t seed;
+};
+
+void *reader6_task(void *arg)
+{
+	World &W = *g_world;
+	ReaderArg *ra = (ReaderArg *)arg;
+	Rng r(ra->seed);
+	for (;;) {
+		if (W.readers_stop) // (checked before blocking: a wake-up sent while this task was running must not be lost)
+			break;
+		(void)sim_block(SIM_W_USER, &W.reader_cv, SIM_NO_DEADLINE, 0);
+		if (W.readers_stop)
+			break;
+		for (unsigned k = 0; k < W.reads_per_wake && !W.readers_stop; k++) {
+			// probes come from the records around the most recent reload
+			if (W.wins.empty())
+				break;
+			const Win6 &wn = W.wins.back();
+			Read6 rd;
+			rd.reader = ra->id;
+			rd.rc = 0;
+			rd.state = -1;
+			std::vector<PfxRec> pool(wn.oldp.begin(), wn.oldp.end());
+			pool.insert(pool.end(), wn.newp.begin(), wn.newp.end());
+			std::vector<SpkiRec> kpool(wn.olds.begin(), wn.olds.end());
+			kpool.insert(kpool.end(), wn.news.begin(), wn.news.end());
+			rd.spki = !kpool.empty() && (pool.empty() || r.chance(300));
+			if (!rd.spki && pool.empty())
+				break;
+			if (!rd.spki) {
+				PfxRec c = pool[r.below(pool.size())];
+				rd.q = c;
+				if (r.chance(300) && c.len < c.width())
+					rd.q.len = (int)r.range(c.len, c.maxlen < c.width() ? c.maxlen + 1 : c.width());
+				if (rd.q.len > c.width())
+					rd.q.len = c.width();
+				if (r.chance(150))
+					rd.q.asn = (uint32_t)(64500 + r.below(6));
+				lrtr_ip_addr ip;
+				to_lrtr_addr(rd.q.fam, rd.q.addr, &ip);
+				enum pfxv_state res = BGP_PFXV_STATE_NOT_FOUND;
+				rd.inv = ++W.stamp;
+				rd.rc = rtr_mgr_validate(W.conf, rd.q.asn, &ip, (uint8_t)rd.q.len, &res);
+				rd.ret = ++W.stamp;
+				rd.state = (int)res;
+			} else {
+				rd.k = kpool[r.below(kpool.size())];
+				spki_record *res = nullptr;
+				unsigned n = 0;
+				rd.inv = ++W.stamp;
+				rd.rc = rtr_mgr_get_spki(W.conf, rd.k.asn, rd.k.ski.data(), &res, &n);
+				rd.ret = ++W.stamp;
+				for (unsigned i = 0; i < n; i++)
+					rd.keys.insert(from_spki_record(&res[i], W.sm));
+				if (res)
+					lrtr_free(res);
+			}
+			W.reads6.push_back(rd);
+			W.ctx.count("reader_reads");
+		}
+	}
+	return nullptr;
+}
+
+void evaluate_reads6(World &W)
+{
+	// per reader and table: has an answer that only the new set explains been seen in window w?
+	std::map<std::tuple<int, int, int>, bool> seen_new;
+	for (auto &rd : W.reads6) {
+		// the window this read overlaps, or else the last window that ended before it
+		int over = -1, before = -1;
+		for (size_t i = 0; i < W.wins.size(); i++) {
+			const Win6 &wn = W.wins[i];
+			if (!wn.done)
+				continue;
+			if (rd.ret > wn.start && rd.inv < wn.end)
+				over = (int)i;
+			else if (wn.end <= rd.inv)
+				before = (int)i;
+		}
+		int wi = over >= 0 ? over : before;
+		if (wi < 0)
+			continue;
+		const Win6 &wn = W.wins[(size_t)wi];
+		// a later window of the same socket that has started but not finished makes "before" stale
+		bool stale = false;
+		for (size_t i = (size_t)wi + 1; i < W.wins.size(); i++)
+			if (W.wins[i].start < rd.ret)
+				stale = true;
+		if (stale && over < 0)
+			continue;
+		auto answer = [&](bool newer) {
+			if (!rd.spki) {
+				PfxModel m;
+				m.recs = wn.otherp;
+				const std::set<PfxRec> &mine = newer ? wn.newp : wn.oldp;
+				m.recs.insert(mine.begin(), mine.end());
+				return std::make_pair(m.validate(rd.q.asn, rd.q.fam, rd.q.addr, rd.q.len), std::set<SpkiRec>());
+			}
+			SpkiModel m;
+			m.recs = wn.others;
+			const std::set<SpkiRec> &mine = newer ? wn.news : wn.olds;
+			m.recs.insert(mine.begin(), mine.end());
+			return std::make_pair(-1, m.get_all(rd.k.asn, rd.k.ski));
+		};
+		auto a_old = answer(false), a_new = answer(true);
+		auto got = std::make_pair(rd.spki ? -1 : rd.state, rd.keys);
+		bool is_old = got == a_old, is_new = got == a_new;
+		W.ctx.count(over >= 0 ? "reads_during_reload" : "reads_after_reload");
+		if (a_old != a_new)
+			W.ctx.count(over >= 0 ? "reads_during_reload_discriminating" : "reads_after_reload_discriminating");
+		const char *tbl = rd.spki ? "router-key" : "prefix";
+		if (over >= 0) {
+			bool new_allowed = wn.success;
+			if (!(is_old || (is_new && new_allowed))) {
+				W.ctx.viol("C06", std::string("neither-old-nor-new-") + tbl, std::string("C06:reader:") + tbl + ":neither-old-nor-new",
+					   "reader %d: %s lookup during a full reload of socket %d returned an answer that neither the complete old nor the complete new "
+					   "data set explains (old says %d/%zu, new says %d/%zu, got %d/%zu)",
+					   rd.reader, tbl, wn.si, a_old.first, a_old.second.size(), a_new.first, a_new.second.size(), got.first, got.second.size());
+				continue;
+			}
+			auto key = std::make_tuple(rd.reader, (int)rd.spki, wi);
+			if (a_old != a_new) {
+				if (is_new && !is_old)
+					seen_new[key] = true;
+				else if (is_old && !is_new && seen_new[key])
+					W.ctx.viol("C06", std::string("new-then-old-") + tbl, std::string("C06:reader:") + tbl + ":new-then-old",
+						   "reader %d observed the new %s data of socket %d and afterwards the old one", rd.reader, tbl, wn.si);
+			}
+		} else {
+			bool want_new = wn.success;
+			if (!(want_new ? is_new : is_old))
+				W.ctx.viol("C06", std::string("wrong-after-reload-") + tbl, std::string("C06:reader:") + tbl + (want_new ? ":old-after-success" : ":new-after-failure"),
+					   "reader %d: %s lookup after a %s reload of socket %d does not return the %s data set's answer", rd.reader, tbl,
+					   want_new ? "successful" : "failed", wn.si, want_new ? "new" : "old");
+		}
 	}
 }
 
@@ -1395,6 +1569,23 @@ void run_world(const J &plan, RunCtx &ctx)
 		for (int i = 0; i < W.n; i++)
 			serialise_callbacks(W, i);
 	check_group_order(W, "after init");
+	std::vector<ReaderArg> rargs;
+	std::vector<int> rtasks;
+	if (plan.has("c06")) {
+		W.c06 = true;
+		W.reads_per_wake = (unsigned)plan["c06"].geti("reads_per_wake", 40);
+		int nr = (int)plan["c06"].geti("readers", 2);
+		rargs.resize((size_t)nr);
+		sim_nopreempt_begin();
+		for (int i = 0; i < nr; i++) {
+			rargs[(size_t)i].id = i;
+			rargs[(size_t)i].seed = seed_label(plan["seed"].u64(), "reader") + (uint64_t)i;
+			char nm[16];
+			snprintf(nm, sizeof(nm), "reader%d", i);
+			rtasks.push_back(sim_spawn(nm, reader6_task, &rargs[(size_t)i]));
+		}
+		sim_nopreempt_end();
+	}
 	rtr_mgr_start(W.conf);
 	// storage for groups added at run time (the manager keeps the sockets pointer)
 	std::vector<std::vector<rtr_socket *>> added_socks;
@@ -1588,6 +1779,13 @@ void run_world(const J &plan, RunCtx &ctx)
 				next = now + 600 * SIM_NS;
 		}
 		(void)sim_block(SIM_W_USER, &W, next, 0);
+	}
+	if (W.c06) {
+		W.readers_stop = true;
+		sim_wake(SIM_W_USER, &W.reader_cv);
+		for (int t : rtasks)
+			sim_join_task(t);
+		evaluate_reads6(W);
 	}
 	ctx.extra["digests"]["tables"] = hex64(table_digest(W));
 	ctx.extra["digests"]["states"] = hex64(W.dig_states);
